@@ -420,7 +420,7 @@ Fixpoint ok_modes (r : ref) (target : str) (cm pm : str) (only_set : bool) (flag
         | MArg => negb (is_nil args) && ok_modes r target cm pm only_set fs (tl args) add
         | MSetArg => if add then negb (is_nil args) && ok_modes r target cm pm only_set fs (tl args) add
                      else ok_modes r target cm pm only_set fs args add
-        | MPrefix => negb only_set && negb (is_nil args) && member_of r target (hd [] args)
+        | MPrefix => negb only_set && negb (is_nil args) && negb (is_nil (hd [] args)) && member_of r target (hd [] args)
                      && ok_modes r target cm pm only_set fs (tl args) add
         | MFlag => ok_modes r target cm pm only_set fs args add
         end
